@@ -1,6 +1,7 @@
 package extractor
 
 import (
+	"fmt"
 	"strings"
 
 	"github.com/internetarchive/Zeno/pkg/models"
@@ -21,6 +22,14 @@ func IsPDF(URL *models.URL) bool {
 
 func PDF(URL *models.URL) (outlinks []*models.URL, err error) {
 	defer URL.RewindBody()
+
+	// The PDF parser can panic on malformed documents (e.g. slice bounds out of range):
+	// a bad body must only cost this URL, not the crawler.
+	defer func() {
+		if r := recover(); r != nil {
+			outlinks, err = nil, fmt.Errorf("panic while parsing PDF: %v", r)
+		}
+	}()
 
 	annots, err := pdfapi.Annotations(URL.GetBody(), nil, nil)
 	if err != nil {
